@@ -284,7 +284,7 @@ impl<'a> SpecGen<'a> {
             }
             // an id that extends an earlier one by a word the generator itself appends to names (no rng draw: the
             // choice is a function of the position, so that the rest of the document is as before)
-            if !self.prev_ids.is_empty() && (idx + self.names.len()) % 4 == 3 {
+            if !self.prev_ids.is_empty() && (idx + self.names.len()) % 4 == 3 && !self.features.iter().any(|f| f == "operation_id_extends_another") {
                 let suffix = ["Request", "Required", "Response", "_request", "Item"][(idx + self.names.len() / 4) % 5];
                 id = format!("{}{suffix}", self.prev_ids[0]);
                 self.feat("operation_id_extends_another");
